@@ -12,7 +12,7 @@ if ! git -C $wt apply /tmp/mut/$id.out/patch.diff 2>/dev/null; then
   git -C $wt reset -q
 fi
 for p in "$@"; do
-  out=$(VERIF_REPO=$wt timeout 1800 /verif/bin/check $p 2>&1); code=$?
+  out=$(VERIF_REPO=$wt timeout 1800 ${CHECK_BIN:-/verif/bin/check} $p 2>&1); code=$?
   echo "$id $p exit=$code $(echo "$out" | grep -c '^VIOLATION') violation line(s); $(echo "$out" | tail -1)"
   echo "$out" | grep -A1 '^VIOLATION' | grep '^  ' | head -3 | cut -c1-260
 done
